@@ -197,6 +197,29 @@ def _run_dense_sparse(case, ctx):
         if ok:
             p.expect_array("tensor." + nm, B, A)
             p.after_edit("tensor." + nm, B, T, A)
+    # non-initial state: the same dense tensor reached by growth (C-ordered buffer), then converted
+    if A.size >= 2:
+        Tg = H.build(dict(base, kind="tensor", grown=True))
+        if p.expect_array("tensor", Tg, A, kind="tensor", variant="grown"):
+            ok, S = p.call("tensor.to_sptensor", lambda: Tg.to_sptensor(), variant="grown")
+            if ok:
+                probs = O.wf_sptensor(S)
+                p.expect("tensor.to_sptensor", not probs, "malformed:" + ",".join(probs), str(probs), "grown")
+                if not probs:
+                    p.expect_array("tensor.to_sptensor", S, A, kind="sptensor", variant="grown")
+                    p.expect("tensor.to_sptensor", S.nnz == k, "wrong_nnz", f"{S.nnz}!={k}", "grown")
+            ok, fv = p.call("tensor.find", lambda: Tg.find(), variant="grown")
+            if ok:
+                try:
+                    good = rm.same(O.scatter(shape, fv[0], fv[1]), A) and len(fv[1]) == k
+                except Exception:  # noqa: BLE001
+                    good = False
+                p.expect("tensor.find", good, "wrong_value", f"subs={np.asarray(fv[0]).tolist()} vals={np.asarray(fv[1]).tolist()}",
+                         "grown")
+            for nm in ("full", "double", "copy"):
+                ok, B = p.call("tensor." + nm, lambda: getattr(Tg, nm)(), variant="grown")
+                if ok:
+                    p.expect_array("tensor." + nm, B, A, variant="grown")
     # sparse holders in every stored order
     for o in space.orders(k, case.get("orders_upto", 3)):
         hd = dict(base, kind="sptensor", order=list(o))
